@@ -4,11 +4,11 @@
 // init() below runs a real FileLogger's router() against a scripted event stream and
 // exits before main: the only way to reach this package-main code in-process.
 //
-//   NSQ_VERIF_SCRIPT  path of the JSON script (options + events)
-//   NSQ_VERIF_MARKER  path of the marker file: one JSON line per injected event,
-//                     per FIN/REQ/TOUCH seen by the recording MessageDelegate and per
-//                     log line, each written with its own pwrite64(2) so that an outside
-//                     syscall tracer sees them in order with the logger's file I/O.
+//	NSQ_VERIF_SCRIPT  path of the JSON script (options + events)
+//	NSQ_VERIF_MARKER  path of the marker file: one JSON line per injected event,
+//	                  per FIN/REQ/TOUCH seen by the recording MessageDelegate and per
+//	                  log line, each written with its own pwrite64(2) so that an outside
+//	                  syscall tracer sees them in order with the logger's file I/O.
 //
 // Fault injection from outside (strace -e inject=<syscall>:error=..:when=N fails the N-th
 // such call of EVERY thread, counted per thread): the router goroutine is locked to its own
